@@ -35,8 +35,9 @@ def S(a):
     return ("simp", a)
 
 
-def K(c, a):
-    return ("coef", float(c), a)
+def K(c, a, kind=None):
+    """kind (optional, C20): how the coefficient gets onto the unit - see build(); None = Unit(float * unit)"""
+    return ("coef", float(c), a) if kind is None else ("coef", float(c), a, kind)
 
 
 @functools.lru_cache(maxsize=None)
@@ -106,6 +107,24 @@ def exponent_value(p, form, mods=None):
         return np.float64(p.numerator / p.denominator)
     if form == "str":
         return str(p)
+    # further clothes (C20/powform): single precision, decimals cut after 7 / 8 places, sympy Float, numpy integer, Decimal
+    x = p.numerator / p.denominator
+    if form == "f32":
+        import numpy as np
+        return np.float32(x)
+    if form == "dec7":
+        return round(x, 7)
+    if form == "dec8":
+        return round(x, 8)
+    if form == "sfloat":
+        import sympy
+        return sympy.Float(x)
+    if form == "npint":
+        import numpy as np
+        return np.int64(p.numerator) if p.denominator == 1 else np.float64(x)
+    if form == "decimal":
+        import decimal
+        return decimal.Decimal(repr(round(x, 12)))
     raise KeyError(form)
 
 
@@ -128,7 +147,25 @@ def build(t, env, mods, reg):
         return u.simplify()
     if k == "coef":
         u = build(t[2], env, mods, reg)
-        return mods["unyt"].Unit(t[1] * u, registry=reg)
+        kind = t[3] if len(t) > 3 else "qfloat"
+        Unit = mods["unyt"].Unit
+        if kind == "qfloat":
+            return Unit(t[1] * u, registry=reg)
+        # the other ways a numeric coefficient gets onto a unit (C20/coefop): an integer-valued quantity, a string with an integer /
+        # rational / decimal factor, a bare sympy expression with a Rational factor
+        f = Fraction(t[1]).limit_denominator(1000)
+        if kind == "qint":
+            return Unit(int(f) * u, registry=reg)
+        if kind == "strint":
+            return Unit(f"{int(f)}*({u})", registry=reg)
+        if kind == "strrat":
+            return Unit(f"{f.numerator}*({u})/{f.denominator}", registry=reg)
+        if kind == "strfloat":
+            return Unit(f"{t[1]!r}*({u})", registry=reg)
+        if kind == "exprrat":
+            import sympy
+            return Unit(sympy.Rational(f.numerator, f.denominator) * u.expr, registry=reg)
+        raise KeyError(kind)
     raise KeyError(k)
 
 
@@ -161,7 +198,10 @@ def _exact_root(c, f):
     n, d = f.numerator, f.denominator
 
     def iroot(x):
-        r = round(x ** (1.0 / d))
+        try:
+            r = round(x ** (1.0 / d))
+        except OverflowError:      # an integer beyond the double range (high powers of a float-derived coefficient): not a perfect power we look for
+            return None
         for k in (r - 1, r, r + 1):
             if k > 0 and k ** d == x:
                 return k
